@@ -26,3 +26,118 @@ def replay(ctx, rep):
         return 1
     print('not reproduced')
     return 0
+
+
+# ---------------------------------------------------------------------------
+# "... or load": a loaded model has symmetric opposites too — also when the document carries only ONE end of a
+# pair (the other end declared transient, which save skips)  (oracle on the implementation only)
+
+def load_scenarios(ctx, out):
+    import os
+    import tempfile
+    from harness import common
+    common.use_repo()
+    from pyecore.ecore import EClass, EAttribute, EReference, EString, EPackage
+    from pyecore.resources import ResourceSet, URI
+    from pyecore.resources.json import JsonResource
+    rng = common.rng_for(ctx.seed, 'C01:load')
+    n = 30 if ctx.tier != 'thorough' else 600
+    cnt = pairs_checked = 0
+    for it in range(n):
+        fmt = 'xmi' if it % 2 == 0 else 'json'
+        pkg = EPackage('p', nsURI=f'http://verif/c01/load/{it}', nsPrefix='p')
+        A, B = EClass('A'), EClass('B')
+        for c in (A, B):
+            c.eStructuralFeatures.append(EAttribute('name', EString))
+        A.eStructuralFeatures.append(EReference('kids', A, upper=-1, containment=True))
+        A.eStructuralFeatures.append(EReference('bs', B, upper=-1, containment=True))
+        pairs = []
+        for k, (m1, m2) in enumerate([(False, False), (False, True), (True, False), (True, True)]):
+            if rng.random() < 0.7:
+                f = EReference(f'f{k}', B, upper=-1 if m1 else 1)
+                g = EReference(f'g{k}', A, upper=-1 if m2 else 1, eOpposite=f)
+                tr = rng.choice([None, None, 'f', 'g'])          # one end transient: only the other is written
+                if tr == 'f':
+                    f.transient = True
+                if tr == 'g':
+                    g.transient = True
+                A.eStructuralFeatures.append(f)
+                B.eStructuralFeatures.append(g)
+                pairs.append((f'f{k}', m1, f'g{k}', m2, tr))
+        if not pairs:
+            continue
+        pkg.eClassifiers.extend([A, B])
+        root = A(name='r')
+        as_ = [root] + [A(name=f'a{i}') for i in range(rng.randrange(1, 4))]
+        bs = [B(name=f'b{i}') for i in range(rng.randrange(2, 5))]
+        for a in as_[1:]:
+            root.kids.append(a)
+        for b in bs:
+            rng.choice(as_).bs.append(b)
+        links = []
+        for (f, m1, g, m2, tr) in pairs:
+            for _ in range(rng.randrange(1, 5)):
+                a, b = rng.choice(as_), rng.choice(bs)
+                try:
+                    if m1:
+                        getattr(a, f).append(b)
+                    else:
+                        setattr(a, f, b)
+                    links.append([a.name, f, b.name])
+                except Exception:  # noqa
+                    pass
+        hist = {'format': fmt, 'pairs': [list(p) for p in pairs], 'links': links, 'as': len(as_), 'bs': len(bs)}
+        case = {'scenario': 'load', 'seed': ctx.seed, 'tier': ctx.tier, 'history': hist}
+        with tempfile.TemporaryDirectory() as tmp:
+            try:
+                rs = ResourceSet()
+                rs.resource_factory['json'] = lambda uri: JsonResource(uri)
+                rs.metamodel_registry[pkg.nsURI] = pkg
+                res = rs.create_resource(URI(os.path.join(tmp, f'm.{fmt}')))
+                res.append(root)
+                res.save()
+                rs2 = ResourceSet()
+                rs2.resource_factory['json'] = lambda uri: JsonResource(uri)
+                rs2.metamodel_registry[pkg.nsURI] = pkg
+                lroot = rs2.get_resource(URI(os.path.join(tmp, f'm.{fmt}'))).contents[0]
+            except Exception as e:  # noqa  (save/load failures are C08/C09's subject)
+                out.notes.append(f'C01 load scenario skipped: {type(e).__name__}: {e}'[:200])
+                continue
+            cnt += 1
+            objs = [lroot] + list(lroot.eAllContents())
+            la = [o for o in objs if o.eClass.name == 'A']
+            lb = [o for o in objs if o.eClass.name == 'B']
+            bad = None
+            for (f, m1, g, m2, tr) in pairs:
+                for a in la:
+                    fa = list(getattr(a, f)) if m1 else ([getattr(a, f)] if getattr(a, f) is not None else [])
+                    for b in lb:
+                        gb = list(getattr(b, g)) if m2 else ([getattr(b, g)] if getattr(b, g) is not None else [])
+                        pairs_checked += 1
+                        if (b in fa) != (a in gb):
+                            bad = (f, g, a.name, b.name, b in fa, a in gb, tr)
+            if bad:
+                f, g, an, bn, x, y, tr = bad
+                out.fail({'property': 'C01', 'clause': 'asymmetric-after-load', 'format': fmt, 'transient_end': tr is not None},
+                         f'after loading the {fmt} document: {bn} in {an}.{f} is {x} but {an} in {bn}.{g} is {y} '
+                         f'(transient end: {tr})', case)
+    out.coverage['load_scenarios'] = cnt
+    out.coverage['load_pairs_checked'] = pairs_checked
+
+
+_run_k = run
+
+
+def run(ctx, out):   # noqa: F811
+    _run_k(ctx, out)
+    load_scenarios(ctx, out)
+
+
+_replay_k = replay
+
+
+def replay(ctx, rep):   # noqa: F811
+    if rep.get('case', {}).get('scenario') == 'load':
+        from harness import common
+        return common.scenario_replay(ctx, rep, {'load': load_scenarios})
+    return _replay_k(ctx, rep)
